@@ -152,9 +152,21 @@ def write_pins(prop):
 
 # --------------------------------------------------------------------------- running cases
 
+def _big_stack():
+    # the extracted Gallina functions are not tail recursive (length, app, firstn on ring contents of up to
+    # 1 MiB): give the runners the largest stack the system allows
+    import resource
+    try:
+        soft, hard = resource.getrlimit(resource.RLIMIT_STACK)
+        resource.setrlimit(resource.RLIMIT_STACK, (hard, hard))
+    except Exception:
+        pass
+
+
 def run_lines(binary, lines, timeout=1800):
     inp = "\n".join(lines) + "\n"
-    p = subprocess.run([binary], input=inp, capture_output=True, text=True, timeout=timeout)
+    p = subprocess.run([binary], input=inp, capture_output=True, text=True, timeout=timeout,
+                       preexec_fn=_big_stack)
     out = p.stdout.split("\n")
     if out and out[-1] == "":
         out.pop()
